@@ -1,3 +1,4 @@
+import copy
 import logging
 
 from bardolph.controller import units
@@ -565,7 +566,9 @@ class Machine:
     def _time_pattern(self) -> None:
         inst = self.current_inst
         if inst.param0 == SetOp.INIT:
-            self._reg.time = inst.param1
+            # UNION modifies the register's pattern in place; work on a copy so
+            # the pattern stored in the program (or a macro) stays as compiled.
+            self._reg.time = copy.deepcopy(inst.param1)
         else:
             self._reg.time.union(inst.param1)
 
